@@ -70,6 +70,36 @@ pub fn serialize(ty: &Ty, v: &Value, out: &mut Vec<Option<u8>>) {
     }
 }
 
+/// Path of the first FlexVec node with at least two items.
+fn first_flex(ty: &Ty, v: &Value, path: &mut Vec<u16>) -> Option<Vec<u16>> {
+    match (ty, v) {
+        (Ty::FlexVec(_, _), Value::Flex(xs)) if xs.len() >= 2 => Some(path.clone()),
+        (Ty::Struct(s), Value::Struct(fs)) => {
+            for (i, (t, x)) in s.fields.iter().zip(fs).enumerate() {
+                path.push(i as u16);
+                let r = first_flex(t, x, path);
+                path.pop();
+                if r.is_some() {
+                    return r;
+                }
+            }
+            None
+        }
+        (Ty::Enum(e), Value::Enum(k, fs)) => {
+            for (i, (t, x)) in e.variants[*k].fields.iter().zip(fs).enumerate() {
+                path.push(i as u16);
+                let r = first_flex(t, x, path);
+                path.pop();
+                if r.is_some() {
+                    return r;
+                }
+            }
+            None
+        }
+        _ => None,
+    }
+}
+
 fn probe(feature: &str) -> Result<String, String> {
     let out = std::process::Command::new("cargo")
         .args(["run", "--quiet", "--offline", "--features", feature])
@@ -96,7 +126,7 @@ impl Property for C17 {
     fn rule(&self) -> String {
         "case = (portable = true definition or container of portable items with a portable length type from the generated corpus, value, EVERY address offset 0..16 via a generated sample of two, two garbage prefills); \
          oracle: ALIGN == 1; as_bytes()[..size()] == an independent reference serialiser (pure concatenation, in declaration order, of tag, fields, length and elements in their fixed byte order; the only undefined bytes are the union slack after a shorter variant of a sized enum), hence no padding anywhere; from_bytes at odd addresses succeeds and reads the same value; the image does not depend on the buffer's previous contents or address; \
-         compile probes (generated-program testing moved to compile time): #[flat(portable = true, tag_type = \"u16\" | \"u32\")] enums must be rejected by the compiler or still have ALIGN 1 and a fixed-order tag; \
+         compile probes (generated-program testing moved to compile time): portable = true definitions with a wide tag (u16 / u32), a native multi-byte field, a non-portable unsized tail or a native length type must be rejected by the compiler or still have ALIGN 1; \
          non-trivial = shape has >= 2 multi-byte scalars and the buffer address is odd; distinct by (shape, value, offset)"
             .into()
     }
@@ -108,8 +138,8 @@ impl Property for C17 {
     }
     fn config(&self, tier: Tier) -> PropConfig {
         match tier {
-            Tier::Quick => PropConfig { cases: 24_000, max_tape: 200, shards: 8 },
-            Tier::Thorough => PropConfig { cases: 600_000, max_tape: 300, shards: 16 },
+            Tier::Quick => PropConfig { cases: 200000, max_tape: 200, shards: 12 },
+            Tier::Thorough => PropConfig { cases: 3200000, max_tape: 300, shards: 16 },
         }
     }
     fn prelude(&self, reg: &Registry, shard: u32, nshards: u32, _tier: Tier, st: &mut Stats) -> CaseResult {
@@ -126,27 +156,27 @@ impl Property for C17 {
             st.exhaustive_parts.push("ALIGN == 1 for every portable shape of the corpus".into());
         }
         if shard == nshards - 1 {
-            for feature in ["tag_u16", "tag_u32"] {
+            for feature in ["tag_u16", "tag_u32", "np_sized_field", "np_struct_tail", "np_enum_tail", "np_native_len"] {
                 st.eval(1);
                 match probe(feature) {
                     Err(m) => vfail!("harness-probe", "harness: compile probe {}: {}", feature, m),
                     Ok(r) if r == "rejected" => st.label("compile probe: wide tag rejected by the compiler"),
                     Ok(r) => {
-                        // compiled: must still be a portable image: align 1, B(0x1234 le) => tag 1 in fixed order
+                        // compiled and claims Portable: must still have a portable image (align 1)
                         let ok = r.contains("align=1 ");
                         if !ok {
                             vfail!(
-                                "wide-tag",
-                                "#[flat(portable = true, tag_type = \"{}\")] enum Probe {{ A, B(le::U16) }} compiles but is not portable: {}",
-                                &feature[4..],
+                                "non-portable-accepted",
+                                "compile probe `{}` (probes/tagwidth/src/main.rs): a portable = true definition with a non-portable part compiles and implements Portable, but is not portable: {}",
+                                feature,
                                 r
                             );
                         }
-                        st.label("compile probe: wide tag accepted with a portable image");
+                        st.label("compile probe: accepted with a portable image");
                     }
                 }
             }
-            st.exhaustive_parts.push("compile probes for portable enums with tag_type u16 and u32".into());
+            st.exhaustive_parts.push("compile probes: portable enums with tag_type u16 / u32, portable structs / enums with a native field, a non-portable tail, a native length type".into());
         }
         Ok(())
     }
@@ -252,6 +282,58 @@ impl Property for C17 {
             } else {
                 st.label("trivial");
             }
+        }
+        // route B: the same value built through the mutators (pushes) must have the same image
+        if let Some(fpath) = first_flex(ty, &v, &mut vec![]) {
+            let (fty, fval) = super::history::resolve(ty, &v, &fpath).unwrap();
+            let items = fval.items().to_vec();
+            let _ = fty;
+            let mut base = v.clone();
+            *super::history::resolve_mut(&mut base, &fpath) = Value::Flex(vec![]);
+            let mut buf = Guarded::new(n, offs[1], false);
+            buf.slice().fill(fills[0]);
+            let mut out = None;
+            let mut push_err = None;
+            st.eval(1);
+            let r = lib(|| {
+                sh.new_in_place(buf.slice(), &base, &route, &mut |live| {
+                    for it in &items {
+                        match live.mutate(&fpath, &crate::glue::Op::FPush(it.clone(), vec![])) {
+                            crate::glue::OpOut::Done => {}
+                            other => {
+                                push_err = Some(format!("{:?}", other));
+                                return;
+                            }
+                        }
+                    }
+                    out = Some(live.read());
+                })
+            });
+            let what = format!("{}: {} built by pushing the {} items of the FlexVec at {:?} one by one into {} bytes", name, v.show(), items.len(), fpath, n);
+            match r {
+                Err(p) => vfail!("panic", "{} panicked: {}", what, p),
+                Ok(Err(e)) => vfail!("refused", "{}: emplacing the base value failed: {}", what, show_err(&e)),
+                Ok(Ok(())) => {}
+            }
+            if let Some(e) = push_err {
+                vfail!("push-refused", "{}: a push failed ({}) although the serialisation of the whole value fits", what, e);
+            }
+            let o = out.unwrap();
+            if o.value != v {
+                vfail!("readback", "{}: reads back {}", what, o.value.show());
+            }
+            if o.size != want.len() && !ty.is_sized() {
+                vfail!("size", "{}: size() = {} but the serialisation has {} bytes (padding between items?)", what, o.size, want.len());
+            }
+            let got = &buf.as_ref()[..o.size.min(n)];
+            for (i, w) in want.iter().enumerate() {
+                if let Some(w) = w {
+                    if got.get(i) != Some(w) {
+                        vfail!("image", "{}: byte {} of the image is {:?}, the reference serialisation has {:#04x}\n got {}", what, i, got.get(i), w, hex(got));
+                    }
+                }
+            }
+            st.label("route B: built by pushes");
         }
         if images[0] != images[1] {
             vfail!("address-dependence", "{}: the image of {} differs between address offsets {:?} / prefills", name, v.show(), offs);
